@@ -28,7 +28,7 @@ use crate::memory::{get_optimal_numa_node, numa_alloc_aligned, numa_dealloc};
 use std::sync::{Arc, Mutex};
 // Additional sync primitives (currently unused)
 // use std::sync::RwLock;
-use std::sync::atomic::{AtomicU32, AtomicUsize, Ordering};
+use std::sync::atomic::{AtomicU32, AtomicU64, AtomicUsize, Ordering};
 // Additional utilities (currently unused)
 // use std::collections::HashMap;
 // use std::marker::PhantomData;
@@ -176,18 +176,33 @@ impl Default for FreeListHead {
 #[derive(Debug)]
 #[repr(align(64))]
 struct LockFreeFreeListHead {
-    head: AtomicU32,
+    /// Low 32 bits: offset of the first free block (u32::MAX = empty).
+    /// High 32 bits: generation counter, incremented by every successful push/pop so that a
+    /// head that was popped and pushed back (A -> B -> A) no longer compares equal.
+    head: AtomicU64,
     count: AtomicU32,
-    _padding: [u8; 64 - 8], // Ensure 64-byte alignment
+    _padding: [u8; 64 - 12], // Ensure 64-byte alignment
 }
 
 impl Default for LockFreeFreeListHead {
     fn default() -> Self {
         Self {
-            head: AtomicU32::new(u32::MAX),
+            head: AtomicU64::new(u32::MAX as u64),
             count: AtomicU32::new(0),
-            _padding: [0; 64 - 8],
+            _padding: [0; 64 - 12],
         }
+    }
+}
+
+impl LockFreeFreeListHead {
+    #[inline]
+    fn pack(offset: u32, generation: u32) -> u64 {
+        ((generation as u64) << 32) | offset as u64
+    }
+
+    #[inline]
+    fn unpack(packed: u64) -> (u32, u32) {
+        (packed as u32, (packed >> 32) as u32)
     }
 }
 
@@ -671,7 +686,8 @@ impl LockFreePool {
             
             // Lock-free compare-exchange loop
             loop {
-                let current_head = head.head.load(Ordering::Acquire);
+                let current_packed = head.head.load(Ordering::Acquire);
+                let (current_head, generation) = LockFreeFreeListHead::unpack(current_packed);
                 if current_head == u32::MAX {
                     break; // No free blocks
                 }
@@ -686,8 +702,8 @@ impl LockFreePool {
                 
                 // Try to update head atomically
                 match head.head.compare_exchange_weak(
-                    current_head,
-                    next_head,
+                    current_packed,
+                    LockFreeFreeListHead::pack(next_head, generation.wrapping_add(1)),
                     Ordering::Release,
                     Ordering::Relaxed
                 ) {
@@ -724,7 +740,8 @@ impl LockFreePool {
             
             // Lock-free insertion
             loop {
-                let current_head = head.head.load(Ordering::Acquire);
+                let current_packed = head.head.load(Ordering::Acquire);
+                let (current_head, generation) = LockFreeFreeListHead::unpack(current_packed);
 
                 // Write next pointer into freed block
                 unsafe {
@@ -736,8 +753,8 @@ impl LockFreePool {
                 
                 // Try to update head atomically
                 match head.head.compare_exchange_weak(
-                    current_head,
-                    offset.0,
+                    current_packed,
+                    LockFreeFreeListHead::pack(offset.0, generation.wrapping_add(1)),
                     Ordering::Release,
                     Ordering::Relaxed
                 ) {
